@@ -86,7 +86,12 @@ Proof.
       match goal with |- context [step s ?o] => pose proof (Inv_next s m o (reg m) I) as HI end;
       destruct (step s _) as [s1 out]; destruct Hf as [[Hb _] Hq]; simpl fst in *; simpl snd;
       (split; [apply quiet_ok; exact Hq | apply HI; rewrite Hb; exact (inv_reg _ _ I)])).
-    (* ListBinds *)
+    - (* DiscoveryReply: no entity is announced as removed *)
+      cbn [mon]. unfold advance. rewrite Hw. rewrite reply_no_gone, drop_gone_nil.
+      pose proof (Inv_next s m (DiscoveryReply p m0) (reg m) I) as HI.
+      destruct (step s (DiscoveryReply p m0)) as [s1 out]. destruct Hf as [[Hb _] _]. simpl fst in *.
+      split; [reflexivity | apply HI; rewrite Hb; exact (inv_reg _ _ I)].
+    - (* ListBinds *)
     cbn [mon]. unfold advance. rewrite Hw. cbn [step]. simpl fst. simpl snd.
     rewrite (inv_reg _ _ I).
     destruct (si_ids _ (bi_s _ (inv_b _ _ I))) as [_ [_ [_ Hnd]]].
